@@ -473,4 +473,4 @@ def run(ctx):
     ctx.exhaustive('every key of the html/xsl/pug tables alone × reverseAttributes; single-element definitions × decoration subsets (all of size ≤ 2, every 5th larger one); multi-element definitions: class and children placement')
     ctx.run_cases('table', [{'user': {'s1': 'p+span'}}, {'user': {'s1': 's1'}}, {'user': {'s1': 's2>s1', 's2': 's1+p'}}, {'user': {'s1': 'ul>s2*2', 's2': 'li.a+li.b'}},
                             {'user': {'s1': '(s2+s3)*2', 's2': 's3>em', 's3': 'div.c'}}, {'user': {'s1': 's2', 's2': 's3', 's3': 's4', 's4': 's5', 's5': 's6', 's6': 's1'}}])
-    ctx.run_parallel('shard_tables', extra=(ctx.pick(150, 5000),))
+    ctx.run_parallel('shard_tables', extra=(ctx.pick(150, 2000),))
